@@ -73,9 +73,126 @@ let expr_of toks = match toks with
 
 let bundle_str b = Printf.sprintf "%d:%s" (int_of_z b.b_lo) (String.concat "," (List.map (fun x -> string_of_int (int_of_nat x)) b.b_items))
 
+
+(* ---------------- document-level reader: ELAB <document>  ->  "ok <json>" | "err <class>" ----------------
+   Strings travel as x<hex of the bytes>; "~" = None. Grammar (prefix form, blank separated; {x} = repetition,
+   always preceded by its count):
+     doc    := nmod {module}
+     module := name cell(0|1) nparam {key val} attrs nhdr {hentry} nbody {item}
+     attrs  := n {key (~|val)}
+     hentry := HP (~|in|out|inout) range name | HA name expr
+     range  := ~ | R h l
+     expr   := A atom | C n {atom}          oexpr := ~ | expr
+     atom   := id name | bit name i | part name h l | c0 | c1
+     item   := PD dir (~|wire|reg|tri0|tri1) range n {name} attrs | W type range n {name} attrs
+             | I mod inst nparam {key val} attrs (N n {port oexpr} | P n {oexpr}) | DP inst key val | AS atom atom | OT  *)
+let n_of_int i = if i = 0 then N0 else Npos (pos_of_int i)
+let int_of_n = function N0 -> 0 | Npos p -> int_of_pos p
+let str_of_tok t =
+  if String.length t = 0 || t.[0] <> 'x' then failwith ("bad string " ^ t)
+  else
+    let h = String.sub t 1 (String.length t - 1) in
+    List.init (String.length h / 2) (fun i -> n_of_int (int_of_string ("0x" ^ String.sub h (2 * i) 2)))
+let hex_of_str s = "x" ^ String.concat "" (List.map (fun c -> Printf.sprintf "%02x" (int_of_n c)) s)
+
+let need = function x :: r -> (x, r) | [] -> failwith "short document"
+let rec take_k k f toks = if k = 0 then ([], toks) else let (x, r) = f toks in let (xs, r') = take_k (k - 1) f r in (x :: xs, r')
+let take_count f toks = let (c, r) = need toks in take_k (int_of_string c) f r
+let p_str toks = let (t, r) = need toks in (str_of_tok t, r)
+let p_ostr toks = let (t, r) = need toks in ((if t = "~" then None else Some (str_of_tok t)), r)
+let p_kv toks = let (k, r) = p_str toks in let (v, r) = p_str r in ((k, v), r)
+let p_attr toks = let (k, r) = p_str toks in let (v, r) = p_ostr r in ((k, v), r)
+let p_attrs toks = take_count p_attr toks
+let p_z toks = let (t, r) = need toks in (z_of_int (int_of_string t), r)
+let p_range toks = match toks with
+  | "~" :: r -> (None, r)
+  | "R" :: r -> let (h, r) = p_z r in let (l, r) = p_z r in (Some (h, l), r)
+  | _ -> failwith "bad range"
+let p_atom toks = match toks with
+  | "id" :: r -> let (n, r) = p_str r in (DId n, r)
+  | "bit" :: r -> let (n, r) = p_str r in let (i, r) = p_z r in (DBit (n, i), r)
+  | "part" :: r -> let (n, r) = p_str r in let (h, r) = p_z r in let (l, r) = p_z r in (DPart (n, h, l), r)
+  | "c0" :: r -> (DConst false, r)
+  | "c1" :: r -> (DConst true, r)
+  | _ -> failwith "bad atom"
+let p_expr toks = match toks with
+  | "A" :: r -> let (a, r) = p_atom r in (DAtom a, r)
+  | "C" :: r -> let (l, r) = take_count p_atom r in (DCat l, r)
+  | _ -> failwith "bad expr"
+let p_oexpr toks = match toks with "~" :: r -> (None, r) | _ -> let (e, r) = p_expr toks in (Some e, r)
+let p_dir t = match t with "in" -> DIn | "out" -> DOut | "inout" -> DInout | _ -> failwith "bad dir"
+let p_ty t = match t with "wire" -> TWire | "reg" -> TReg | "tri0" -> TTri0 | "tri1" -> TTri1 | _ -> failwith "bad type"
+let p_hentry toks = match toks with
+  | "HP" :: d :: r ->
+    let dir = if d = "~" then None else Some (p_dir d) in
+    let (rg, r) = p_range r in let (n, r) = p_str r in (HPort (dir, rg, n), r)
+  | "HA" :: r -> let (n, r) = p_str r in let (e, r) = p_expr r in (HAlias (n, e), r)
+  | _ -> failwith "bad header entry"
+let p_item toks = match toks with
+  | "PD" :: d :: t :: r ->
+    let ty = if t = "~" then None else Some (p_ty t) in
+    let (rg, r) = p_range r in let (names, r) = take_count p_str r in let (a, r) = p_attrs r in
+    (IPortDecl (p_dir d, ty, rg, names, a), r)
+  | "W" :: t :: r ->
+    let (rg, r) = p_range r in let (names, r) = take_count p_str r in let (a, r) = p_attrs r in
+    (IWire (p_ty t, rg, names, a), r)
+  | "I" :: r ->
+    let (m, r) = p_str r in let (i, r) = p_str r in
+    let (ps, r) = take_count p_kv r in let (a, r) = p_attrs r in
+    (match r with
+     | "N" :: r -> let (l, r) = take_count (fun t -> let (p, t) = p_str t in let (e, t) = p_oexpr t in ((p, e), t)) r in
+       (IInst (m, i, ps, a, CNamed l), r)
+     | "P" :: r -> let (l, r) = take_count p_oexpr r in (IInst (m, i, ps, a, CPos l), r)
+     | _ -> failwith "bad connections")
+  | "DP" :: r -> let (i, r) = p_str r in let (k, r) = p_str r in let (v, r) = p_str r in (IDefparam (i, k, v), r)
+  | "AS" :: r -> let (a, r) = p_atom r in let (b, r) = p_atom r in (IAssign (a, b), r)
+  | "OT" :: r -> (IOther, r)
+  | _ -> failwith "bad item"
+let p_module toks =
+  let (name, r) = p_str toks in
+  let (cell, r) = need r in
+  let (ps, r) = take_count p_kv r in
+  let (a, r) = p_attrs r in
+  let (h, r) = take_count p_hentry r in
+  let (b, r) = take_count p_item r in
+  ({ vm_name = name; vm_cell = (cell = "1"); vm_params = ps; vm_attrs = a; vm_header = h; vm_body = b }, r)
+
+let js s = "\"" ^ s ^ "\""
+let jlist l = "[" ^ String.concat "," l ^ "]"
+let jstr s = js (hex_of_str s)
+let jostr = function None -> "null" | Some s -> jstr s
+let jlabel = function LName n -> js ("n" ^ hex_of_str n) | LPos k -> js ("~" ^ string_of_int (int_of_nat k))
+let jdir = function None -> js "undefined" | Some DIn -> js "in" | Some DOut -> js "out" | Some DInout -> js "inout"
+let jty = function TWire -> js "wire" | TReg -> js "reg" | TTri0 -> js "tri0" | TTri1 -> js "tri1"
+let jkv (k, v) = jlist [jstr k; jstr v]
+let jattr (k, v) = jlist [jstr k; jostr v]
+let jz z = string_of_int (int_of_z z)
+let jbit = function None -> "null" | Some (c, i) -> jlist [jstr c; jz i]
+let jep = function
+  | EPort (l, b) -> jlist [js "P"; jlabel l; jz b]
+  | EInst (i, l, b) -> jlist [js "I"; jstr i; jlabel l; jz b]
+let jdef d =
+  "{" ^ String.concat "," [
+    "\"name\":" ^ jstr d.nd_name; "\"lib\":" ^ jstr d.nd_lib; "\"prim\":" ^ (if d.nd_prim then "true" else "false");
+    "\"params\":" ^ jlist (List.map jkv d.nd_params); "\"attrs\":" ^ jlist (List.map jattr d.nd_attrs);
+    "\"ports\":" ^ jlist (List.map (fun p -> jlist [jlabel p.np_label; jdir p.np_dir; string_of_int (int_of_nat p.np_width); jz p.np_lower]) d.nd_ports);
+    "\"cables\":" ^ jlist (List.map (fun c -> jlist [jstr c.nc_name; string_of_int (int_of_nat c.nc_width); jz c.nc_lower; jty c.nc_type; jlist (List.map jattr c.nc_attrs)]) d.nd_cables);
+    "\"insts\":" ^ jlist (List.map (fun i -> jlist [jstr i.ni_name; jstr i.ni_ref; jlist (List.map jkv i.ni_params); jlist (List.map jattr i.ni_attrs)]) d.nd_insts);
+    "\"nets\":" ^ jlist (List.map (fun ((c, i), eps) -> jlist [jstr c; jz i; jlist (List.map jep eps)]) d.nd_nets);
+    "\"assigns\":" ^ jlist (List.map (fun prs -> jlist (List.map (fun (o, i) -> jlist [jbit o; jbit i]) prs)) d.nd_assigns) ] ^ "}"
+let jnv n = "{\"top\":" ^ jostr n.nv_top ^ ",\"defs\":" ^ jlist (List.map jdef n.nv_defs) ^ "}"
+let err_str = function EAssert -> "assert" | EValue -> "value" | EAttr -> "attr" | EIndex -> "index" | EUnsupported u -> "unsupported " ^ (match u with UGlob -> "glob-name" | USelfInst -> "self-instantiating-top" | UTopChoice -> "top-depends-on-set-order" | UAliasDecl -> "alias-declaration-set-order" | UStatement -> "other-statement" | UInternal -> "internal")
+
+let handle_elab rest =
+  let (doc, _) = take_count p_module rest in
+  match elab doc with
+  | Ok n -> "ok " ^ jnv n
+  | Err e -> "err " ^ err_str e
+
 let handle line =
   let toks = List.filter (fun s -> s <> "") (String.split_on_char ' ' line) in
   match toks with
+  | "ELAB" :: rest -> handle_elab rest
   | ["GW"; lo; n; l; r] ->
     let n = int_of_string n in
     let ws = List.init n (fun i -> i) in
